@@ -4,3 +4,4 @@ pub mod handlers;
 pub mod enc;
 pub mod input;
 pub mod doc;
+pub mod sel;
